@@ -601,7 +601,17 @@ func (g *Gen) evalQuant(env *Env, x *SExpr) *Val {
 		for _, tr := range x.Trig {
 			var ts []string
 			for _, t := range tr {
-				ts = append(ts, g.eval(&n, t).S)
+				tv := g.eval(&n, t)
+				term := tv.S
+				if tv.K == KSlice || tv.K == KString {
+					term = tv.Arr // a slice-valued trigger stands for the term that reads its backing array
+				}
+				if term != "" {
+					ts = append(ts, term)
+				}
+			}
+			if len(ts) == 0 {
+				continue
 			}
 			pats = append(pats, ":pattern ("+strings.Join(ts, " ")+")")
 		}
